@@ -189,6 +189,17 @@ fn assigned_vars(stmts: &[Stmt], out: &mut Vec<String>) {
             self.visit_expr(&b.left);
             self.visit_expr(&b.right);
         }
+        fn visit_expr_method_call(&mut self, m: &'ast ExprMethodCall) {
+            if m.method == "push" {
+                if let Expr::Path(p) = &*m.receiver {
+                    let n = p.path.segments.last().unwrap().ident.to_string();
+                    if !self.declared.contains(&n) && !self.out.contains(&n) {
+                        self.out.push(n);
+                    }
+                }
+            }
+            visit::visit_expr_method_call(self, m);
+        }
         fn visit_expr_closure(&mut self, _: &'ast ExprClosure) {}
     }
     let mut v = V { out, declared: vec![] };
@@ -611,6 +622,25 @@ impl<'a> Tr<'a> {
                 }
                 Ok(())
             }
+            Pat::TupleStruct(ts) => {
+                // `let Name(a, b, c) = v;` on a tuple struct translated to T<n>
+                let simple = v.chars().all(|c| c.is_alphanumeric() || c == '_' || c == '.');
+                let base = if simple {
+                    v.to_string()
+                } else {
+                    self.ctr.set(self.ctr.get() + 1);
+                    let n = format!("tup_{}", self.ctr.get());
+                    writeln!(out, "let {} := {}", n, v).unwrap();
+                    n
+                };
+                if ts.elems.len() == 1 {
+                    return self.bind_pat(&ts.elems[0], &base, out);
+                }
+                for (i, sub) in ts.elems.iter().enumerate() {
+                    self.bind_pat(sub, &format!("{}.t{}", base, i), out)?;
+                }
+                Ok(())
+            }
             _ => Err(format!("unsupported let pattern `{}`", tok(p))),
         }
     }
@@ -712,16 +742,22 @@ impl<'a> Tr<'a> {
                         // only literal ranges: unrolled
                         let var = match &*f.pat {
                             Pat::Ident(i) => i.ident.to_string(),
+                            Pat::Wild(_) => "_".to_string(),
                             _ => return Err("`for` pattern unsupported".into()),
                         };
+                        if as_range(&f.expr).is_none() {
+                            return self.for_fold(f, rest, k);
+                        }
                         let (lo, hi, incl) = as_range(&f.expr).ok_or_else(|| format!("`for` over `{}` unsupported (only literal ranges are unrolled)", tok(&*f.expr)))?;
                         let lo = int_lit(lo).or_else(|| self.cfg.int_consts.get(&tok(lo)).copied()).ok_or("`for` range bound is not an integer literal")?;
                         let hi = int_lit(hi).or_else(|| self.cfg.int_consts.get(&tok(hi)).copied()).ok_or("`for` range bound is not an integer literal")?;
                         let hi = if incl { hi + 1 } else { hi };
                         let mut unrolled: Vec<Stmt> = vec![];
                         for i in lo..hi {
-                            let s: Stmt = parse_str(&format!("let {} = {};", var, i)).unwrap();
-                            unrolled.push(s);
+                            if var != "_" {
+                                let s: Stmt = parse_str(&format!("let {} = {};", var, i)).unwrap();
+                                unrolled.push(s);
+                            }
                             unrolled.extend(f.body.stmts.iter().cloned());
                         }
                         unrolled.extend(rest.iter().cloned());
@@ -737,6 +773,21 @@ impl<'a> Tr<'a> {
                             self.expr_k(e, k)
                         } else if let Expr::MethodCall(m) = e {
                             // x.push(v) on a local list
+                            if m.method == "retain" {
+                                let n = self.assign_name(&m.receiver)?;
+                                if let Some(Expr::Closure(c)) = m.args.first() {
+                                    self.ctr.set(self.ctr.get() + 1);
+                                    let it = format!("it_{}", self.ctr.get());
+                                    let mut body = String::new();
+                                    if c.inputs.len() != 1 {
+                                        return Err("`retain` closure must take one argument".into());
+                                    }
+                                    self.bind_pat(&c.inputs[0], &it, &mut body)?;
+                                    body.push_str(&self.expr(&c.body)?);
+                                    return Ok(format!("let {} := (List.filter (fun {} =>\n{}) {})\n{}", n, it, body, n, self.stmts(rest, k)?));
+                                }
+                                return Err("`retain` without a closure argument".into());
+                            }
                             if m.method == "push" {
                                 let n = self.assign_name(&m.receiver)?;
                                 let v = self.expr(&m.args[0])?;
@@ -749,6 +800,54 @@ impl<'a> Tr<'a> {
                         }
                     }
                 }
+            }
+        }
+    }
+
+    /// `for pat in iter { body }` over a list: a left fold whose state is the tuple of variables the body assigns
+    fn for_fold(&self, f: &ExprForLoop, rest: &[Stmt], k: K) -> R<String> {
+        struct J(bool);
+        impl<'ast> visit::Visit<'ast> for J {
+            fn visit_expr_break(&mut self, _: &'ast ExprBreak) { self.0 = true; }
+            fn visit_expr_continue(&mut self, _: &'ast ExprContinue) { self.0 = true; }
+            fn visit_expr_return(&mut self, _: &'ast ExprReturn) { self.0 = true; }
+            fn visit_expr_closure(&mut self, _: &'ast ExprClosure) {}
+        }
+        let mut j = J(false);
+        visit::Visit::visit_block(&mut j, &f.body);
+        if j.0 {
+            return Err(format!("`for` over `{}` with break/continue/return in its body is unsupported", tok(&*f.expr)));
+        }
+        let mut vars = vec![];
+        assigned_vars(&f.body.stmts, &mut vars);
+        if vars.is_empty() {
+            return self.stmts(rest, k);
+        }
+        let iter = self.expr(&f.expr)?;
+        self.ctr.set(self.ctr.get() + 1);
+        let n = self.ctr.get();
+        let st = format!("st_{}", n);
+        let it = format!("it_{}", n);
+        let mut body = String::new();
+        self.rebind_from(&vars, &st, &mut body);
+        self.bind_pat(&f.pat, &it, &mut body)?;
+        let tuple = self.tuple_of(&vars);
+        body.push_str(&self.stmts(&f.body.stmts, &|_| Ok(tuple.clone()))?);
+        let mut out = String::new();
+        let folded = format!("(foldlT {} {} (fun {} {} =>\n{}))", iter, tuple, st, it, body);
+        let upd = format!("upd_{}", n);
+        writeln!(out, "let {} := {}", upd, folded).unwrap();
+        self.rebind_from(&vars, &upd, &mut out);
+        out.push_str(&self.stmts(rest, k)?);
+        Ok(out)
+    }
+
+    fn rebind_from(&self, vars: &[String], src: &str, out: &mut String) {
+        if vars.len() == 1 {
+            writeln!(out, "let {} := {}", ident(&vars[0]), src).unwrap();
+        } else {
+            for (i, var) in vars.iter().enumerate() {
+                writeln!(out, "let {} := {}.t{}", ident(var), src, i).unwrap();
             }
         }
     }
